@@ -31,6 +31,7 @@ func init() {
 	reg.Register("c17.timerule", "C17", timerule)
 	reg.Register("c17.levels", "C17", levels)
 	reg.Register("c17.options", "C17", options)
+	reg.Register("c17.multi", "C17", multi)
 }
 
 // libGen is the part of the library's generators the monitors drive (drbg.DRBG).
